@@ -222,6 +222,10 @@ def check_c07(rr: dict, w, sc: dict, truth: list[dict] | None, fkind: str, tz: s
             v = tm.get(fld)
             if isinstance(v, (int, float)) and v < 0:
                 out.append(V("timing", f"negative_{fld}", f"SER {k}: {fld}={v}"))
+        # a duration is the length of the interval its own SER brackets (readings of one simulated clock a few steps apart; a step may jump to the end of a second, hence the 10 s tolerance - time-zone offsets are hours)
+        ts_a, ts_b = harness.parse_rfc3339(tm.get("started_at")), harness.parse_rfc3339(tm.get("finished_at"))
+        if ts_a is not None and ts_b is not None and isinstance(tm.get("wall_ms"), (int, float)) and abs(tm["wall_ms"] - (ts_b - ts_a) * 1000.0) > 10000.0:
+            out.append(V("timing", "wall_ms_inconsistent_with_timestamps", f"SER {k}: wall_ms={tm['wall_ms']} but finished_at - started_at = {(ts_b - ts_a) * 1000.0:.0f} ms (TZ={tz})"))
         # a timestamp "denotes the true instant": started_at was read before the node began, finished_at after it ended
         if e is not None and "t_begin" in e:
             ts0 = harness.parse_rfc3339(tm.get("started_at"))
@@ -289,6 +293,10 @@ def check_c07(rr: dict, w, sc: dict, truth: list[dict] | None, fkind: str, tz: s
                 out.append(V("checks", f"required_keys_present_{rk.get('result')}_but_{holds}", f"SER {k}: expected_keys={exp} pre-context keys={sorted(prev_ctx)}"))
             if tk is not None:
                 must = [p for p, ch in tk["channels"].items() if ch == "context" and _no_default(tk, p)]
+                # ... and a parameter that the node resolved from its signature default is not a required key
+                extra = [p for p in exp if tk["channels"].get(p) == "default" and p not in prev_ctx and not _no_default(tk, p)]
+                if extra and rk.get("result") != "PASS":
+                    out.append(V("checks", "required_keys_present_FAIL_for_defaulted_parameter", f"SER {k}: {extra} resolved from their defaults, yet check={rk}"))
                 lack = [p for p in must if p not in exp]
                 if lack:
                     out.append(V("checks", "required_keys_present_omits_context_parameter", f"SER {k}: parameters {lack} were resolved from context (no default) but expected_keys={exp}"))
